@@ -303,11 +303,18 @@ async def commands_layer(spec, acc, ctx):
                 acc.count("command_searches")
                 ids = [bytes.fromhex(h) for h in db_json.get(kw, [])]
                 want = [BytesConverter.convert_bytes(b, fmt) for b in ids]
-                if scheme in gen.SET_RESULT:
-                    okk = all(repr(w) in line for w in want) and (">>> The result is" in line) and \
-                          line.count(",") == max(0, len(want) - 1)
+                import ast
+                mm = re.search(r">>> The result is (\[.*\])\.\s*$", line.strip(), re.S)
+                try:
+                    printed = ast.literal_eval(mm.group(1)) if mm else None
+                except Exception:
+                    printed = None
+                if printed is None:
+                    okk = False
+                elif scheme in gen.SET_RESULT:
+                    okk = len(printed) == len(want) and sorted(map(repr, printed)) == sorted(map(repr, want))
                 else:
-                    okk = f">>> The result is {want}." in line
+                    okk = printed == want
                 if not okk:
                     viol(f"wrong-output:{fmt}", f"search {kw!r} printed {line.strip()!r:.200}, expected the list {want!r:.160}")
                     break
